@@ -293,6 +293,27 @@ impl<C: CrcCalculator> Rx<C> {
         back
     }
 
+    /// the caller takes a free buffer out of the memory (Decapsulator::new_pdu)
+    pub fn ev_take(&mut self, out: &mut Out) -> Option<Box<[u8]>> {
+        let r = catch_unwind(AssertUnwindSafe(|| self.d.new_pdu()));
+        let (res, buf): (&str, Option<Box<[u8]>>) = match r {
+            Err(_) => ("panic", None),
+            Ok(Ok(b)) => ("ok", Some(b)),
+            Ok(Err(_)) => ("underflow", None),
+        };
+        let memops = self.take_log();
+        out.emit(
+            &Obj::new()
+                .str("ev", "take")
+                .str("res", res)
+                .num("tag", buf.as_ref().map(|b| b.len()).unwrap_or(0))
+                .raw("memops", &memops)
+                .raw("mem", &self.jmem())
+                .end(),
+        );
+        buf
+    }
+
     pub fn ev_reset(&mut self, out: &mut Out) {
         self.d.reset_last_label();
         out.emit(&Obj::new().str("ev", "rx_reset").end());
